@@ -22,66 +22,207 @@ func checkC12(c *fw.Ctx) {
 	checkCheckKeys(c)
 }
 
+// nilAlt is one way a value can be nil, with the condition (from the entry of the function
+// that holds it, conjoined with the conditions of the call sites it was reached through).
+type nilAlt struct {
+	kind string // "nil" (constant nil), "verify" (result of VerifyJSON), "existing" (the result's previous error), "other"
+	cond fw.DNF
+	pos  string
+	desc string
+}
+
+// nilAlternatives enumerates where the error value v (in frame fr, used in block at) can get a
+// nil from: constants, VerifyJSON results, the previous error, through phis (also loop-carried)
+// and unexported helpers (whose returns are enumerated with their own conditions).
+func nilAlternatives(c *fw.Ctx, v ssa.Value, fr *fw.Frame, at *ssa.BasicBlock, outer fw.DNF, depth int) []nilAlt {
+	if depth > 6 {
+		return []nilAlt{{kind: "other", cond: outer, desc: "too deep"}}
+	}
+	fn := at.Parent()
+	var rows []fw.Row
+	var err error
+	fw.WithSubst(fr.Subst(), func() { rows, err = fw.ValueRowsLoops(fn, v, at) })
+	if err != nil {
+		return []nilAlt{{kind: "other", cond: outer, desc: err.Error()}}
+	}
+	var out []nilAlt
+	for _, r := range rows {
+		cond := andAll(outer, r.Cond)
+		if len(cond) == 0 {
+			continue
+		}
+		val := fw.Unwrap(r.Val)
+		if o := fw.LoadOrigin(val); o != val {
+			val = fw.Unwrap(o)
+		}
+		// known non-nil on this alternative: every term says (val == nil) is false
+		sig := fw.SigIn(fr, val)
+		nonNil := true
+		for _, term := range cond {
+			has := false
+			for _, l := range term {
+				if !l.Pos && l.Atom == "("+sig+" == nil)" {
+					has = true
+				}
+			}
+			if !has {
+				nonNil = false
+			}
+		}
+		if nonNil {
+			continue
+		}
+		pos := c.P.Pos(r.Via.Instrs[0].Pos())
+		switch x := val.(type) {
+		case *ssa.Const:
+			if x.Value == nil {
+				out = append(out, nilAlt{"nil", cond, pos, "constant nil"})
+			}
+		case *ssa.MakeInterface, *ssa.Alloc:
+			// a concrete error value
+		case *ssa.Parameter:
+			if arg, ok := fr.ArgOf(x); ok {
+				out = append(out, nilAlternatives(c, arg, fr.Parent, fr.Site.Block(), dropFrameLocal(cond), depth+1)...)
+			} else {
+				out = append(out, nilAlt{"other", cond, pos, "parameter " + x.Name()})
+			}
+		case *ssa.UnOp:
+			if strings.HasSuffix(sig, ".Error") {
+				out = append(out, nilAlt{"existing", cond, pos, sig})
+			} else {
+				out = append(out, nilAlt{"other", cond, pos, sig})
+			}
+		case *ssa.Call:
+			name := fw.CalleeName(x)
+			switch {
+			case name == "gmsl.VerifyJSON":
+				out = append(out, nilAlt{"verify", cond, pos, sig})
+			case name == "fmt.Errorf" || name == "errors.New":
+			default:
+				if callee := fw.Followable(x, fr); callee != nil {
+					nf := &fw.Frame{Site: x, Callee: callee, Parent: fr}
+					for _, ret := range fw.Returns(callee) {
+						if callee.Recover != nil && ret.Block() == callee.Recover {
+							continue
+						}
+						ei := fw.ErrIndex(callee)
+						if ei < 0 || ei >= len(ret.Results) {
+							continue
+						}
+						out = append(out, nilAlternatives(c, ret.Results[ei], nf, ret.Block(), cond, depth+1)...)
+					}
+				} else {
+					out = append(out, nilAlt{"other", cond, pos, sig})
+				}
+			}
+		default:
+			out = append(out, nilAlt{"other", cond, pos, sig})
+		}
+	}
+	return out
+}
+
+// dropFrameLocal keeps a condition as it is (conditions of an entered helper are rendered with
+// the call's arguments, so they remain meaningful in the caller).
+func dropFrameLocal(d fw.DNF) fw.DNF { return d }
+
 func checkUsingKeysRule(c *fw.Ctx) {
 	rule := "1 accept"
 	fn := mustFunc(c, rule, "(*KeyRing).checkUsingKeys")
 	if fn == nil {
 		return
 	}
+	keyLit := lit{[]string{"param:keys[", "]#1"}, true}
+	validLit := lit{[]string{"(gmsl.PublicKeyLookupResult).WasValidAt("}, true}
+	verifyLit := lit{[]string{"(gmsl.VerifyJSON(", " == nil)"}, true}
 	n := 0
-	for _, st := range fw.FieldStores(fn, "VerifyJSONResult", "Error") {
-		cst, isC := st.Val.(*ssa.Const)
-		if !isC || cst.Value != nil {
+	for _, ds := range deepFieldStores(fn, "VerifyJSONResult", "Error") {
+		n++
+		site := fw.DNF{fw.Term{}}
+		if ds.Fr != nil {
+			if d, ok := fw.CondAt(ds.Fr.Parent, ds.Fr.Site.Block()); ok {
+				site = d
+			}
+		}
+		alts := nilAlternatives(c, ds.St.Val, ds.Fr, ds.St.Block(), site, 0)
+		bad, unknown := 0, 0
+		for _, a := range alts {
+			var needs []lit
+			switch a.kind {
+			case "nil":
+				needs = []lit{keyLit, validLit, verifyLit}
+			case "verify":
+				needs = []lit{keyLit, validLit}
+			case "existing":
+				continue
+			default:
+				unknown++
+				c.Undecided(rule, "a verification result is marked successful only behind key present, key valid at the time, VerifyJSON nil", "a value stored into VerifyJSONResult.Error could not be classified: "+a.desc)
+				continue
+			}
+			for _, term := range a.cond {
+				for _, nl := range needs {
+					if !termHas(term, nl) {
+						bad++
+						c.Fail(rule, "a verification result is marked successful only behind key present, key valid at the time, VerifyJSON nil", c.P.Pos(fw.InstrPos(ds.St)), fmt.Sprintf("the error stored at %s can be nil (%s, from %s) on a path that has not established %s: a request can be reported verified without a valid signature under a known, valid key", c.P.Pos(fw.InstrPos(ds.St)), a.desc, a.pos, strings.Join(nl.subs, "…")))
+						break
+					}
+				}
+				if bad > 0 {
+					break
+				}
+			}
+		}
+		if bad == 0 && unknown == 0 {
+			c.Ok(rule, "a verification result is marked successful only behind key present, key valid at the time, VerifyJSON nil", c.P.Pos(fw.InstrPos(ds.St)), fmt.Sprintf("%d possibly-nil alternative(s), all guarded", len(alts)))
+		}
+	}
+	c.Min(rule+" stores to VerifyJSONResult.Error in checkUsingKeys", n, 1)
+	// arguments
+	for _, dc := range deepCallsTo(fn, fw.NameIs("(gmsl.PublicKeyLookupResult).WasValidAt")) {
+		var s []string
+		for _, a := range dc.Call.Common().Args {
+			s = append(s, fw.SigIn(dc.Fr, a))
+		}
+		ok := len(s) == 3 && strings.Contains(s[0], "param:keys[") && strings.HasSuffix(s[1], ".AtTS") && strings.HasSuffix(s[2], ".ValidityCheckingFunc") && strings.Contains(s[1], "param:requests[")
+		c.Expect(ok, rule, "validity is judged at the request's timestamp with the request's rule", c.P.Pos(dc.Call.Pos()), "", "WasValidAt("+strings.Join(s, ", ")+")")
+	}
+	for _, dc := range deepCallsTo(fn, fw.NameIs("gmsl.VerifyJSON")) {
+		var s []string
+		for _, a := range dc.Call.Common().Args {
+			s = append(s, fw.SigIn(dc.Fr, a))
+		}
+		ok := len(s) == 4 && strings.HasSuffix(s[0], ".ServerName") && strings.Contains(s[1], "param:keyIDs[") && strings.Contains(s[2], "param:keys[") && strings.HasSuffix(s[2], ".Key") && strings.HasSuffix(s[3], ".Message")
+		c.Expect(ok, rule, "the signature is verified for the request's server, the key id being tried, the looked-up key and the request's message", c.P.Pos(dc.Call.Pos()), "", "VerifyJSON("+strings.Join(s, ", ")+")")
+	}
+	// no other function of the key ring marks a result successful
+	for _, f := range c.P.SrcFuncs() {
+		if f.Pkg == nil || f.Pkg.Pkg.Path() != fw.ModPath || f.Parent() != nil {
 			continue
 		}
-		n++
-		conds := condsOf(st.Block())
-		var all []string
-		for _, f := range fw.DomConds(st.Block()) {
-			all = append(all, f.String())
+		inRegion := false
+		for _, rf := range fw.RegionOf(fn, nil) {
+			if rf == f {
+				inRegion = true
+			}
 		}
-		full := strings.Join(all, " && ")
-		okKey := strings.Contains(conds, "param:keys[*local:*gmsl.PublicKeyLookupRequest]#1") && !strings.Contains(conds, "!param:keys[")
-		okValid := strings.Contains(conds, "(gmsl.PublicKeyLookupResult).WasValidAt(") && !strings.Contains(conds, "!(gmsl.PublicKeyLookupResult).WasValidAt(")
-		okVerify := strings.Contains(full, "gmsl.VerifyJSON(") && (strings.Contains(full, "!(gmsl.VerifyJSON(") && strings.Contains(full, "!= nil)") || strings.Contains(full, "== nil)"))
-		c.Check(okKey, rule, "success requires a key for (server, key id)", c.P.Pos(fw.InstrPos(st)), "", "the nil store is not guarded by the presence of the looked-up key")
-		c.Check(okValid, rule, "success requires the key to have been valid at the requested time", c.P.Pos(fw.InstrPos(st)), "", "the nil store is not guarded by WasValidAt")
-		c.Check(okVerify, rule, "success requires VerifyJSON to succeed", c.P.Pos(fw.InstrPos(st)), "", "the nil store is not guarded by a nil VerifyJSON result")
-	}
-	c.Check(n == 1, rule, "checkUsingKeys has exactly one success store", c.P.Pos(fn.Pos()), "", fmt.Sprintf("%d nil stores", n))
-	// arguments
-	for _, call := range fw.CallsTo(fn, false, fw.NameIs("(gmsl.PublicKeyLookupResult).WasValidAt")) {
-		s := argSigs(call)
-		ok := len(s) == 3 && strings.Contains(s[0], "param:keys[") && strings.HasSuffix(s[1], "].AtTS") && strings.HasSuffix(s[2], "].ValidityCheckingFunc") && strings.Contains(s[1], "param:requests[")
-		c.Check(ok, rule, "validity is judged at the request's timestamp with the request's rule", c.P.Pos(call.Pos()), "", "WasValidAt("+strings.Join(s, ", ")+")")
-	}
-	for _, call := range fw.CallsTo(fn, false, fw.NameIs("gmsl.VerifyJSON")) {
-		s := argSigs(call)
-		ok := len(s) == 4 && strings.HasSuffix(s[0], "].ServerName") && strings.Contains(s[1], "param:keyIDs[") && strings.Contains(s[2], "param:keys[") && strings.HasSuffix(s[2], ".Key") && strings.HasSuffix(s[3], "].Message")
-		c.Check(ok, rule, "the signature is verified for the request's server, the key id being tried, the looked-up key and the request's message", c.P.Pos(call.Pos()), "", "VerifyJSON("+strings.Join(s, ", ")+")")
-	}
-	// the key is looked up under {request server, key id}
-	okS, okK := false, false
-	for _, st := range fw.FieldStores(fn, "PublicKeyLookupRequest", "ServerName") {
-		okS = okS || strings.HasSuffix(fw.Sig(st.Val), "].ServerName")
-	}
-	for _, st := range fw.FieldStores(fn, "PublicKeyLookupRequest", "KeyID") {
-		okK = okK || strings.Contains(fw.Sig(st.Val), "param:keyIDs[")
-	}
-	c.Check(okS && okK, rule, "keys are looked up by (request server, key id)", c.P.Pos(fn.Pos()), "", "lookup key is not {requests[i].ServerName, keyID}")
-	// only nil store in the package's key ring code
-	total := 0
-	for _, f := range c.P.SrcFuncs() {
-		if f.Pkg == nil || f.Pkg.Pkg.Path() != fw.ModPath {
+		if inRegion || fw.FuncName(f) == "(gmsl.JSONVerifierSelf).VerifyJSONs" {
 			continue
 		}
 		for _, st := range fw.FieldStores(f, "VerifyJSONResult", "Error") {
-			if cst, isC := st.Val.(*ssa.Const); isC && cst.Value == nil && f.Parent() == nil {
-				total++
+			if cst, isC := st.Val.(*ssa.Const); isC && cst.Value == nil {
+				c.Fail(rule, "no other function marks a verification result successful ("+fw.FuncName(f)+")", c.P.Pos(fw.InstrPos(st)), "a nil error is stored into a VerifyJSONResult outside checkUsingKeys")
 			}
 		}
 	}
-	c.Check(total == 1, rule, "no other function marks a verification result successful", "", "", fmt.Sprintf("%d nil stores to VerifyJSONResult.Error in the package", total))
+}
+
+// siteBlock: the block of the outermost-but-one call site of a deep store (for CondAt).
+func siteBlock(ds deepStore) *ssa.BasicBlock {
+	if ds.Fr == nil {
+		return ds.St.Block()
+	}
+	return ds.Fr.Site.Block()
 }
 
 func checkValidityTables(c *fw.Ctx) {
